@@ -153,6 +153,114 @@ def q2(ctx):
                   "%s for SlotMap is hand-written or missing (%d impls): equality/hash/order may depend on more than the set of pairs" % (t, len(imps)))
 
 
+ITER_ADAPTORS = {"iter", "into_iter", "copied", "cloned", "by_ref", "rev_not"}   # order/identity preserving ones only
+
+
+def _consumer_of_closure(body):
+    """(parent body, call site) of the call that receives this closure as an argument"""
+    if body.creation is None:
+        return None
+    parent, cbb, csi, _ = body.creation
+    cl_local = parent.blocks[cbb]["stmts"][csi]["lhs"]["l"]
+    for c in parent.calls:
+        for a in c.args:
+            pl = mir.op_place(a)
+            if pl is not None and pl["l"] == cl_local and not parent.blocks[c.bb]["cleanup"]:
+                return parent, c
+    return None
+
+
+def _owner_of_param(body, name):
+    """the closure body (this one or an ancestor) that has a parameter called `name`"""
+    b = body
+    while b is not None:
+        for l in range(1, b.argc + 1):
+            nm = b.var_names.get(l, "_%d" % l)
+            if nm == name and not (b.kind == "Closure" and l == 1):
+                return b
+        b = b.parent_body
+    return None
+
+
+def desc(body, role, depth=0):
+    """normalised description of a slot value inside a SlotMap operation:
+    ('elem', collection parameter, component) | ('get', map parameter, desc) | ('fresh',) | ('other', text)"""
+    if depth > 8:
+        return ("other", "deep")
+    r = strip_role(role)
+    if not isinstance(r, tuple):
+        return ("other", str(r))
+    if r[0] == "call" and r[1] == "fresh":
+        return ("fresh",)
+    # peel `.k` projections and `as Some`
+    path = []
+    x = r
+    while isinstance(x, tuple) and x[0] in ("field", "variant"):
+        if x[0] == "field":
+            path.append(x[2])
+        else:
+            path.append("@" + x[2])
+        x = strip_role(x[1])
+    path.reverse()
+    if isinstance(x, tuple) and x[0] == "call":
+        if x[1] == "next" and x[3]:
+            # loop form: element of the iterated collection
+            src = strip_role(x[3][0])
+            while isinstance(src, tuple) and src[0] == "call" and src[1] in ITER_ADAPTORS and src[3]:
+                src = strip_role(src[3][0])
+            if isinstance(src, tuple) and src[0] == "param":
+                comps = [p for p in path if not p.startswith("@") and p != "0"] if path[:2] == ["@Some", "0"] else None
+                rest = path[2:] if path[:2] == ["@Some", "0"] else path
+                rest = [p for p in rest if not p.startswith("@")]
+                return ("elem", src[1], rest[0] if rest else None)
+        if x[1] == "get" and len(x[3]) == 2:
+            m_ = strip_role(x[3][0])
+            if isinstance(m_, tuple) and m_[0] == "param" and path[:2] == ["@Some", "0"]:
+                return ("get", m_[1], desc(body, x[3][1], depth + 1))
+    if isinstance(x, tuple) and x[0] == "param":
+        owner = _owner_of_param(body, x[1])
+        if owner is not None and owner.kind == "Closure":
+            cons = _consumer_of_closure(owner)
+            if cons is not None:
+                parent, c = cons
+                recv = strip_role(parent.role_of_operand(c.args[0])) if c.args else None
+                if c.callee and c.callee.name in ("map", "filter_map", "for_each", "filter", "flat_map", "find_map", "all", "any") and recv is not None:
+                    # Option::map on a get(..): the parameter is the payload
+                    if isinstance(recv, tuple) and recv[0] == "call" and recv[1] == "get" and len(recv[3]) == 2 and "Option" in (c.callee.impl_self or ""):
+                        m_ = strip_role(recv[3][0])
+                        if isinstance(m_, tuple) and m_[0] == "param":
+                            return ("get", m_[1], desc(parent, recv[3][1], depth + 1))
+                    src = recv
+                    while isinstance(src, tuple) and src[0] == "call" and src[1] in ITER_ADAPTORS and src[3]:
+                        src = strip_role(src[3][0])
+                    if isinstance(src, tuple) and src[0] == "param":
+                        comps = [p for p in path if not p.startswith("@")]
+                        return ("elem", src[1], comps[0] if comps else None)
+        elif owner is not None:
+            comps = [p for p in path if not p.startswith("@")]
+            if not comps:
+                return ("param", x[1])
+    return ("other", role_str(r)[:60])
+
+
+def result_pairs(crate, b):
+    """(key desc, value desc, body, bb, call-or-None) for every pair that can end up in the SlotMap the
+    function returns: SlotMap::insert calls, and (k, v) tuples produced by closures of an iterator chain
+    that is collected"""
+    out = []
+    for c in b.calls:
+        if c.callee and c.callee.target == "slotmap::SlotMap::insert" and not b.blocks[c.bb]["cleanup"]:
+            out.append((desc(b, b.role_of_operand(c.args[1])), desc(b, b.role_of_operand(c.args[2])), b, c.bb, c))
+    for sub in b.all_bodies():
+        if sub is b:
+            continue
+        for bi, si, s in sub.statements():
+            rv = s["rv"] if s["k"] == "assign" else None
+            if rv and rv["k"] == "agg" and rv.get("agg") == "tuple" and len(rv["ops"]) == 2 and s["lhs"]["l"] == 0:
+                out.append((desc(sub, sub.role_of_operand(rv["ops"][0])), desc(sub, sub.role_of_operand(rv["ops"][1])), sub, bi, None))
+    return out
+
+
 def loop_inserts(crate, b):
     """insert(out, k, v) calls with roles, plus what the loop iterates"""
     out = []
@@ -176,36 +284,56 @@ def comp(role):
             if isinstance(x, tuple) and x[0] == "param":
                 src = x[1]
     path.reverse()
-    # path like ['0', '1'] : Some.0 then tuple .1
     return (src, path[-1] if path else None)
+
+
+def visits_all_of(crate, b, param):
+    """the function looks at every element of `param`: an exhaustive loop over it, or an iterator chain over it
+    without dropping adaptors other than filter_map/map (whose closures are inspected separately)"""
+    for lp in C.iterator_loops(b):
+        src = strip_role(lp[1])
+        while isinstance(src, tuple) and src[0] == "call" and src[1] in ITER_ADAPTORS and src[3]:
+            src = strip_role(src[3][0])
+        if src == ("param", param):
+            return C.loop_exhaustive(b, lp)
+    for c in b.calls:
+        if c.callee and c.callee.name in ("collect", "for_each") and not b.blocks[c.bb]["cleanup"]:
+            r = strip_role(b.role_of_operand(c.args[0]))
+            bad = False
+            x = r
+            while isinstance(x, tuple) and x[0] == "call" and x[3]:
+                if x[1] in ("take", "skip", "step_by", "take_while", "skip_while", "filter", "rev"):
+                    bad = True
+                nxt = strip_role(x[3][0])
+                if nxt == ("param", param):
+                    return not bad
+                x = nxt
+    return False
 
 
 @rule("Q3", doc="operation roles: inserted key / value come from the documented sources", once=True)
 def q3(ctx):
     crate = ctx.lib("default")
-    # compose_partial / compose_fresh
+    # compose_partial / compose_fresh: every pair of the result is (x, other.get(y)) for a pair (x, y) of self
     for name, fresh in (("compose_partial", False), ("compose_fresh", True)):
         b = m(crate, name)
-        ins = loop_inserts(crate, b)
-        lp = C.iterator_loops(b)
-        ctx.check(len(lp) == 1 and C.loop_exhaustive(b, lp[0]) and strip_role(lp[0][1]) == ("param", "self"),
-                  "iterates-self:" + name, "%s visits every pair of self" % name, "%s does not visit every pair of self" % name, where_of(b))
+        ctx.check(visits_all_of(crate, b, "self"), "iterates-self:" + name, "%s visits every pair of self" % name, "%s does not visit every pair of self" % name, where_of(b))
+        pairs = result_pairs(crate, b)
         nget = 0
-        for c, k, v in ins:
-            ks = comp(k)
-            ctx.check(ks == ("self", "0"), "key-from-own-key:%s:%d" % (name, c.bb), "%s inserts under self's key x" % name, "%s inserts under %s" % (name, role_str(k)), where_of(b, c.bb))
-            if v[0] == "call" and v[1] == "fresh":
-                ctx.check(fresh, "fresh-only-in-fresh-variant:" + name, "fresh fill-in only in compose_fresh", "%s invents fresh slots" % name, where_of(b, c.bb))
-                conds = C.conditions_at(b, c.bb)
+        for k, v, sub, bb, c in pairs:
+            ctx.check(k == ("elem", "self", "0"), "key-from-own-key:%s:%s" % (name, "fresh" if v == ("fresh",) else "get"), "%s inserts under self's key x" % name,
+                      "%s puts a pair under key %s instead of self's own key" % (name, k), where_of(sub, bb))
+            if v == ("fresh",):
+                ctx.check(fresh, "fresh-only-in-fresh-variant:" + name, "fresh fill-in only in compose_fresh", "%s invents fresh slots" % name, where_of(sub, bb))
+                conds = C.conditions_at(sub, bb)
                 miss = any(cond[0] in ("true", "false", "unknown") and len(cond) > 1 and cond[1][0] == "discr" and role_mentions_call(cond[1], "get") for e, cond in conds)
-                ctx.check(miss, "fresh-on-miss-only:" + name, "the fresh slot is used only when other has no entry for y", "compose_fresh uses a fresh slot although other maps y", where_of(b, c.bb))
+                ctx.check(miss, "fresh-on-miss-only:" + name, "the fresh slot is used only when other has no entry for y", "compose_fresh uses a fresh slot although other maps y", where_of(sub, bb))
             else:
                 nget += 1
-                g = [x for x in role_walk(v) if isinstance(x, tuple) and x[0] == "call" and x[1] == "get"]
-                ok = len(g) == 1 and strip_role(g[0][3][0]) == ("param", "other") and comp(strip_role(g[0][3][1])) == ("self", "1")
-                ctx.check(ok, "value-is-other-of-own-value:%s:%d" % (name, c.bb), "%s inserts other.get(y) for self's value y (first self, then other)" % name,
-                          "%s inserts %s; it must be other.get(self's value): the composition order / components are mixed up" % (name, role_str(v)), where_of(b, c.bb))
-        ctx.check(nget == 1 and len(ins) == (2 if fresh else 1), "insert-count:" + name, "%s has the expected insert sites" % name, "%s has %d insert sites" % (name, len(ins)), where_of(b))
+                ok = v == ("get", "other", ("elem", "self", "1"))
+                ctx.check(ok, "value-is-other-of-own-value:" + name, "%s maps x to other.get(y) for self's pair (x, y) (first self, then other)" % name,
+                          "%s maps a key to %s; it must be other.get(self's value): the composition order / components are mixed up" % (name, v), where_of(sub, bb))
+        ctx.check(nget == 1 and len(pairs) == (2 if fresh else 1), "pair-sources:" + name, "%s has the expected pair sources" % name, "%s has %d pair sources (%s)" % (name, len(pairs), [(k, v) for k, v, _, _, _ in pairs]), where_of(b))
     cm = m(crate, "compose")
     r = strip_role(cm.role_of_local(0))
     ctx.check(r[0] == "call" and r[1] == "compose_partial" and [strip_role(x) for x in r[3]] == [("param", "self"), ("param", "other")], "compose-delegates", "compose = compose_partial(self, other) (+ ghost assertion)",
